@@ -56,6 +56,7 @@ func (prop) Drive(d *core.Driver) error {
 	d.T.Assumptions = []string{
 		"the Markdown converter given to BuildTemplate returns the error of the writer it was given (goldmark output is written to out in chunks of 24 bytes so that a failure can fall inside a conversion)",
 		"for templates with recover or deferred output only the two structured shapes of the generator are judged, by a model keyed by marked bytes",
+		"deferred calls run while a write failure unwinds, as in Go: output of a deferred macro after the failed write is by design, and when the writer keeps failing Run may return the error of that later write (any of the writer's errors is accepted there); for templates without deferred output the first error and no further Write are required also with a writer that keeps failing",
 	}
 	nPlain := d.N(110, 4400)
 	nRec := d.N(20, 300)
@@ -127,19 +128,30 @@ type writeErr struct{ k int }
 func (e *writeErr) Error() string { return fmt.Sprintf("write %d failed", e.k) }
 
 // faultWriter records every Write call and fails on the k-th one (k == 0: never).
+// If persistent is set it also fails on every later call, each time with a new error
+// value (recorded in errs).
 type faultWriter struct {
-	k      int
-	err    error
-	calls  int
-	chunks [][]byte
-	after  int // Write calls made after the failing one
+	k          int
+	err        error
+	persistent bool
+	errs       []error
+	calls      int
+	chunks     [][]byte
+	after      int // Write calls made after the failing one
 }
 
 func (w *faultWriter) Write(b []byte) (int, error) {
 	w.calls++
 	w.chunks = append(w.chunks, append([]byte(nil), b...))
 	if w.k != 0 && w.calls == w.k {
+		w.errs = append(w.errs, w.err)
 		return 0, w.err
+	}
+	if w.persistent && w.k != 0 && w.calls > w.k {
+		w.after++
+		e := &writeErr{w.calls}
+		w.errs = append(w.errs, e)
+		return 0, e
 	}
 	if w.k != 0 && w.calls > w.k {
 		w.after++
@@ -228,6 +240,26 @@ func (prop) Work(c core.Case) core.Result {
 		}
 		for _, f := range cd.Features {
 			sigs[core.SigJoin(cd.Class, f, outcome)] = true
+		}
+		if cd.Class == "recover" {
+			continue
+		}
+		// the same position with a writer that keeps failing, with a new error value
+		// every time: the first failure is the one to report, unless deferred output
+		// fails again while unwinding (then one of the writer's errors)
+		pw := &faultWriter{k: k, err: E, persistent: true}
+		var perr error
+		pv, panicked, stack = core.Guard(func() { perr = tmpl.Run(pw, nil, nil) })
+		res.Evals++
+		res.Counts["persistent_fault_runs"]++
+		if msg := judgePersistent(cd.Class, ok.chunks, pw, k, E, pv, panicked, stack, perr); msg != "" {
+			if len(bad) < 4 {
+				bad = append(bad, fmt.Sprintf("k=%d of %d, writer failing from this write on: %s", k, W, msg))
+			}
+			res.Counts["bad_runs"]++
+			sigs[core.SigJoin(cd.Class, "persistent", "BAD")] = true
+		} else {
+			sigs[core.SigJoin(cd.Class, "persistent", "E")] = true
 		}
 	}
 	for s := range sigs {
@@ -325,6 +357,39 @@ func deferredBefore(okChunks [][]byte, k int) bool {
 		}
 	}
 	return false
+}
+
+// judgePersistent judges a run whose writer fails on the k-th and on every later
+// Write. Without deferred output nothing may be written after the first failure and
+// Run returns the first error. Deferred output (class "deferred", defer statement
+// already executed) is attempted, as in Go a deferred call runs while the panic
+// unwinds; it fails too, and Run returns one of the errors the writer returned.
+func judgePersistent(class string, okChunks [][]byte, w *faultWriter, k int, E error, pv any, panicked bool, stack string, rerr error) string {
+	if panicked {
+		return fmt.Sprintf("Run panicked into the host with %T: %v\n%s", pv, pv, scriggoFrames(stack))
+	}
+	if w.calls < k {
+		return fmt.Sprintf("only %d writes were made, the failing write was never reached (Run returned %v)", w.calls, rerr)
+	}
+	later := w.chunks[k:]
+	if class == "deferred" && !bytes.HasPrefix(okChunks[k-1], []byte(fp.DeferMark)) && deferredBefore(okChunks, k) {
+		for _, e := range w.errs {
+			if rerr == e {
+				if len(later) > 1 {
+					return fmt.Sprintf("%d Write calls after the first failure, want at most the first write of the deferred macro", len(later))
+				}
+				return ""
+			}
+		}
+		return fmt.Sprintf("Run returned %T: %v, want one of the writer's errors", rerr, rerr)
+	}
+	if rerr != E {
+		return fmt.Sprintf("Run returned %T: %v, want the error of the first failed write (%v)", rerr, rerr, E)
+	}
+	if len(later) > 0 {
+		return fmt.Sprintf("%d Write call(s) after the first failure, first %q", len(later), core.Truncate(string(later[0]), 60))
+	}
+	return ""
 }
 
 func sameChunks(got, want [][]byte, what string) string {
